@@ -350,6 +350,7 @@ type c30Msg struct {
 	BodyType quicstreamheader.BodyType
 	Body     []byte
 	NilBody  bool // write with a nil reader (Empty, or Fixed with length 0)
+	Rd       c30ReaderKind // how the io.Reader handed to WriteBody delivers Body (zero value: bytes.Reader)
 	ViaBody  bool // reshead: the client reads it with ReadBody instead of ReadResponseHead
 	Eager    bool // the receiver reads right after the write (otherwise later, in order)
 	Desc     string
@@ -636,7 +637,13 @@ func genC30Body(allowStream bool) *rapid.Generator[c30Msg] {
 		m.BodyType = rapid.SampledFrom(kinds).Draw(t, "bodyType")
 
 		if m.BodyType != quicstreamheader.EmptyBodyType {
-			switch rapid.IntRange(0, 9).Draw(t, "sizeClass") {
+			switch rapid.IntRange(0, 11).Draw(t, "sizeClass") {
+			case 10:
+				// around the 32 KiB buffer of the writer's copy loop, and the sizes of the fixed sweep
+				m.Body = c30Fill(rapid.SampledFrom([]int{33, 32767, 32768, 32769}).Draw(t, "n32k"), rapid.Byte().Draw(t, "fill"))
+			case 11:
+				// several copy buffers
+				m.Body = c30Fill(rapid.SampledFrom([]int{2*32768 + 1, 3 * 32768, 3*32768 + 33, 100000}).Draw(t, "nbufs"), rapid.Byte().Draw(t, "fill"))
 			case 0, 1:
 				m.Body = []byte{}
 			case 2:
@@ -656,8 +663,17 @@ func genC30Body(allowStream bool) *rapid.Generator[c30Msg] {
 			m.NilBody = rapid.Bool().Draw(t, "nilReader")
 		}
 
+		if m.BodyType != quicstreamheader.EmptyBodyType && !m.NilBody {
+			m.Rd = genC30ReaderKind().Draw(t, "reader")
+		}
+
 		m.Eager = rapid.Bool().Draw(t, "eager")
 		m.Desc = fmt.Sprintf("body:%s/%d", c30BodyTypeName(m.BodyType), len(m.Body))
+
+		if !m.Rd.plain() {
+			m.Desc += "@" + m.Rd.String()
+		}
+
 		return m
 	})
 }
@@ -822,12 +838,165 @@ func c30NewConn(env *c30Env, ch [2]c30Chunking) *c30Conn {
 	return c
 }
 
-func c30BodyReader(m c30Msg) io.Reader {
-	if m.NilBody {
-		return nil
+// c30ReaderKind is the behaviour of the io.Reader that the writing side hands to WriteBody. Everything below is allowed
+// by the io.Reader contract and done by readers real callers pass in (compress/flate, quic-go receive streams and
+// testing/iotest.DataErrReader return the last chunk together with io.EOF; files, pipes and network streams return
+// short reads; iotest.OneByteReader one byte per call; a zero-length read with a nil error is discouraged but legal).
+// The zero value is a plain bytes.Reader ((n, nil) ... (0, io.EOF); it also offers WriteTo).
+type c30ReaderKind struct {
+	Name    string // "" (bytes.Reader) | whole | 1byte | short | zeros
+	Cuts    []int  // size of the successive reads (cyclic); 0 = one Read that returns (0, nil); empty = as much as fits
+	EOFWith bool   // the last bytes (or, for an empty body, the first call) come together with io.EOF
+}
+
+func (k c30ReaderKind) plain() bool { return k.Name == "" }
+
+func (k c30ReaderKind) class() string {
+	if k.plain() {
+		return "plain"
 	}
 
-	return bytes.NewReader(m.Body)
+	return k.Name
+}
+
+func (k c30ReaderKind) String() string {
+	if k.plain() {
+		return "plain"
+	}
+
+	s := k.Name
+	if len(k.Cuts) > 0 && k.Name != "1byte" {
+		s += fmt.Sprint(k.Cuts)
+	}
+
+	if k.EOFWith {
+		s += "+eof-with-data"
+	}
+
+	return s
+}
+
+// c30KindReader delivers data the way its kind says; it has no WriteTo, so the copy loop of the writer sees every Read.
+type c30KindReader struct {
+	data  []byte
+	kind  c30ReaderKind
+	ci    int
+	done  bool // io.EOF was returned
+	reads int  // Read calls
+	zeros int  // (0, nil) results
+}
+
+func (rd *c30KindReader) Read(p []byte) (int, error) {
+	rd.reads++
+
+	if rd.done {
+		return 0, io.EOF
+	}
+
+	if len(rd.data) == 0 {
+		// an empty body, or a reader that reports the end separately
+		rd.done = true
+
+		return 0, io.EOF
+	}
+
+	if len(p) == 0 {
+		return 0, nil
+	}
+
+	n := len(p)
+
+	if len(rd.kind.Cuts) > 0 {
+		k := rd.kind.Cuts[rd.ci%len(rd.kind.Cuts)]
+		rd.ci++
+
+		if k == 0 {
+			rd.zeros++
+
+			return 0, nil
+		}
+
+		if k < n {
+			n = k
+		}
+	}
+
+	if n > len(rd.data) {
+		n = len(rd.data)
+	}
+
+	copy(p, rd.data[:n])
+	rd.data = rd.data[n:]
+
+	if len(rd.data) == 0 && rd.kind.EOFWith {
+		rd.done = true
+
+		return n, io.EOF
+	}
+
+	return n, nil
+}
+
+func c30BodyReader(m c30Msg) io.Reader {
+	switch {
+	case m.NilBody:
+		return nil
+	case m.Rd.plain():
+		return bytes.NewReader(m.Body)
+	default:
+		return &c30KindReader{data: m.Body, kind: m.Rd}
+	}
+}
+
+// genC30ReaderKind: plain (2 in 7), or a reader without WriteTo: whole reads, one byte per read, short reads (small
+// cuts, or cuts around and above the 32 KiB buffer of the copy loop), short reads with zero-length reads in between;
+// each with the end reported together with the last bytes or separately.
+func genC30ReaderKind() *rapid.Generator[c30ReaderKind] {
+	return rapid.Custom(func(t *rapid.T) c30ReaderKind {
+		k := c30ReaderKind{}
+
+		switch rapid.IntRange(0, 6).Draw(t, "readerKind") {
+		case 0, 1:
+			return k
+		case 2:
+			k.Name = "whole"
+		case 3:
+			k.Name, k.Cuts = "1byte", []int{1}
+		case 4:
+			k.Name = "short"
+			k.Cuts = rapid.SliceOfN(rapid.OneOf(
+				rapid.IntRange(1, 64),
+				rapid.SampledFrom([]int{511, 4096, 32767, 32768, 32769, 40000}),
+			), 1, 6).Draw(t, "readerCuts")
+		default:
+			k.Name = "zeros"
+			k.Cuts = rapid.SliceOfN(rapid.IntRange(0, 9), 1, 6).Draw(t, "readerCuts")
+			// progress is guaranteed: the cycle always has a positive cut, and a zero somewhere
+			k.Cuts = append(k.Cuts, 0, rapid.SampledFrom([]int{1, 2, 33, 4096, 32768}).Draw(t, "readerCutLast"))
+		}
+
+		k.EOFWith = rapid.Bool().Draw(t, "readerEOFWithData")
+
+		return k
+	})
+}
+
+// c30ReaderSweepKinds / c30ReaderSweepSizes: the fixed part of the reader dimension, run in every tier.
+var c30ReaderSweepSizes = []int{0, 1, 33, 32767, 32768, 32769, 3*32768 + 33}
+
+func c30ReaderSweepKinds() (kinds []c30ReaderKind) {
+	kinds = append(kinds, c30ReaderKind{})
+
+	for _, eof := range []bool{false, true} {
+		kinds = append(kinds,
+			c30ReaderKind{Name: "whole", EOFWith: eof},
+			c30ReaderKind{Name: "1byte", Cuts: []int{1}, EOFWith: eof},
+			c30ReaderKind{Name: "short", Cuts: []int{7, 32768, 1, 4096}, EOFWith: eof},
+			c30ReaderKind{Name: "zeros", Cuts: []int{0, 5, 0, 0, 32768}, EOFWith: eof},
+		)
+	}
+
+	return kinds
 }
 
 func (c *c30Conn) write(t ev.TB, r *ev.Rec, m c30Msg) {
@@ -2040,9 +2209,12 @@ func TestC30(t *testing.T) {
 	r := ev.Start(t, "C30")
 	defer r.Finish()
 	r.Rule("A (roundtrip): transcript = one of 29 real request headers (isaac network, memberlist broadcast, launch node r/w; valid fields, drawn client id) " +
-		"followed by 0..6 messages: bodies {empty, fixed 0/1/2..40/8/100..3000/64KiB+-1, stream} in either direction and response heads " +
+		"followed by 0..6 messages: bodies {empty, fixed 0/1/2..40/8/33/100..3000/32KiB+-1/64KiB+-1/2-3 copy buffers/100000, stream} in either direction, each non-empty-kind body " +
+		"handed to WriteBody through a reader that is {bytes.Reader, whole reads, 1 byte per read, short reads (cuts 1..64 / 511..40000), short reads with " +
+		"zero-length (0,nil) reads in between} x {last bytes together with io.EOF, io.EOF on its own call}, and response heads " +
 		"{default, ask-handover, block-item; ok/err} from the handler, read eagerly or deferred, response heads through ReadResponseHead or ReadBody; " +
 		"client and handler brokers joined by two in-memory streams with chunkings {whole,1-byte,cuts 1..7,cuts 1..64}x{EOF with data, EOF after}. " +
+		"A, fixed part (every tier): {fixed, stream} x sizes {0,1,33,32767,32768,32769,3x32KiB+33} x 9 reader behaviours x direction x 2 stream chunkings, a fixed body followed by a second one. " +
 		"B (hostile): the bytes one side wrote, mutated {none, every/drawn truncation, byte flip, hostile length word, type byte, header JSON field " +
 		"deleted/retyped/re-hinted to any registered hint, encoder hint, inserted garbage}, fed to the other side's read calls (1 in 6: to the wrong side's). " +
 		"C (sequence): 2..6 streams read one after the other by fresh brokers that share ONE fresh encoder set (as the streams of a node do): heads whose encoder hint / " +
@@ -2102,11 +2274,64 @@ func TestC30(t *testing.T) {
 		}
 	})
 
+	// ---- A, fixed part: body kind x size x behaviour of the writer's body reader x direction x chunking of the stream
+	t.Run("body-readers", func(t *testing.T) {
+		op := isaacnetwork.NewOperationRequestHeader(valuehash.NewSHA256([]byte("c30")))
+		op.SetClientID("rd")
+
+		chunkings := []c30Chunking{
+			{Name: "whole"},
+			{Name: "drawn", Cuts: []int{1, 7, 64, 3}, EOFTog: true},
+		}
+
+		i := -1
+
+		for _, bt := range []quicstreamheader.BodyType{quicstreamheader.FixedLengthBodyType, quicstreamheader.StreamBodyType} {
+			for _, size := range c30ReaderSweepSizes {
+				for _, kind := range c30ReaderSweepKinds() {
+					for dir := 0; dir < 2; dir++ {
+						for _, ch := range chunkings {
+							i++
+							if !r.Mine(i) {
+								continue
+							}
+
+							body := c30Msg{Dir: dir, Kind: "body", BodyType: bt, Body: c30Fill(size, byte(i)), Rd: kind, Eager: i%3 == 0}
+							body.Desc = fmt.Sprintf("body:%s/%d@%s", c30BodyTypeName(bt), size, kind)
+
+							tr := c30Transcript{Ch: [2]c30Chunking{ch, ch}, Msgs: []c30Msg{
+								{Dir: 0, Kind: "reqhead", Req: op, Eager: true, Desc: "req:operation"},
+								{Dir: 1, Kind: "reshead", Res: quicstreamheader.NewDefaultResponseHeader(true, nil), Eager: true, Desc: "res:default(ok=true,err=false)"},
+								body,
+							}}
+
+							if bt == quicstreamheader.FixedLengthBodyType {
+								// what follows a fixed-length body in the same direction must still be framed right
+								tr.Msgs = append(tr.Msgs, c30Msg{
+									Dir: dir, Kind: "body", BodyType: quicstreamheader.FixedLengthBodyType, Body: []byte(`{"a":1}`), Eager: true, Desc: "body:fixed/7",
+								})
+							}
+
+							r.Journal("body-readers %s chunk=%s", tr.desc(), ch.Name)
+							c30RoundTrip(t, r, env, tr)
+
+							r.CaseN(1, 1, "mode:roundtrip-reader-sweep", "reader:"+kind.class(), "msg:body-"+c30BodyTypeName(bt))
+
+							if i == 0 {
+								r.Sample(map[string]any{"mode": "roundtrip-reader-sweep", "transcript": tr.desc(), "chunking": ch})
+							}
+						}
+					}
+				}
+			}
+		}
+	})
+
 	// ---- A. round trips
 	maxMore := r.N(6, 6)
 	rtSamples := 0
 
-	r.MaxSamples(9)
+	r.MaxSamples(10)
 
 	r.Checks(4000, 80000)
 	r.ShrinkTime(30 * time.Second)
@@ -2134,6 +2359,23 @@ func TestC30(t *testing.T) {
 				if len(m.Body) >= 65535 && !seen["size"] {
 					seen["size"] = true
 					classes = append(classes, "body:64KiB")
+				}
+
+				if len(m.Body) >= 32767 && len(m.Body) <= 32769 && !seen["size32k"] {
+					seen["size32k"] = true
+					classes = append(classes, "body:32KiB")
+				}
+
+				if !m.NilBody && m.BodyType != quicstreamheader.EmptyBodyType {
+					if rc := "reader:" + m.Rd.class(); !seen[rc] {
+						seen[rc] = true
+						classes = append(classes, rc)
+					}
+
+					if m.Rd.EOFWith && len(m.Body) > 0 && !seen["rdeof"] {
+						seen["rdeof"] = true
+						classes = append(classes, "reader:last-bytes-with-eof")
+					}
 				}
 			case "reshead":
 				c = "msg:reshead"
